@@ -5,6 +5,7 @@ package main
 
 import (
 	"fmt"
+	"sync"
 	"go/types"
 	"sort"
 	"strings"
@@ -245,7 +246,7 @@ func sortSym(s Sort) string {
 
 func (vc *VC) sliceSort(elem Sort) Sort {
 	name := "Slice_" + sortSym(elem)
-	sliceElems[name] = elem
+	sliceElemSet(name, elem)
 	vc.declareSort(elem)
 	vc.declare("dt:"+name, fmt.Sprintf("(declare-datatypes ((%s 0)) (((mk%s (%s.arr (Array Int %s)) (%s.len Int) (%s.nil Bool)))))", name, name, name, elem, name, name))
 	return name
@@ -253,10 +254,23 @@ func (vc *VC) sliceSort(elem Sort) Sort {
 
 func sliceElemSort(s Sort) Sort {
 	// recover from declaration text is awkward; keep a registry instead
-	return sliceElems[s]
+	return sliceElemGet(s)
 }
 
-var sliceElems = map[Sort]Sort{}
+var sliceElemsM = map[Sort]Sort{}
+var globMu sync.RWMutex
+
+func sliceElemGet(s Sort) Sort {
+	globMu.RLock()
+	defer globMu.RUnlock()
+	return sliceElemsM[s]
+}
+
+func sliceElemSet(s, e Sort) {
+	globMu.Lock()
+	sliceElemsM[s] = e
+	globMu.Unlock()
+}
 
 func (vc *VC) declareSort(s Sort) {
 	// array sorts need their components declared; datatypes are declared by their makers.
@@ -274,7 +288,20 @@ type structInfo struct {
 	st     *types.Struct
 }
 
-var structInfos = map[Sort]*structInfo{}
+var structInfosM = map[Sort]*structInfo{}
+
+func structInfoGet(s Sort) (*structInfo, bool) {
+	globMu.RLock()
+	defer globMu.RUnlock()
+	i, ok := structInfosM[s]
+	return i, ok
+}
+
+func structInfoSet(s Sort, i *structInfo) {
+	globMu.Lock()
+	structInfosM[s] = i
+	globMu.Unlock()
+}
 
 func (vc *VC) structSort(t types.Type, st *types.Struct) Sort {
 	name := "S_" + shortTypeName(t)
@@ -297,7 +324,7 @@ func (vc *VC) structSort(t types.Type, st *types.Struct) Sort {
 		info.fsorts = append(info.fsorts, fs)
 		parts = append(parts, fmt.Sprintf("(%s %s)", acc, fs))
 	}
-	structInfos[name] = info
+	structInfoSet(name, info)
 	if len(parts) == 0 {
 		vc.declare("dt:"+name, fmt.Sprintf("(declare-datatypes ((%s 0)) (((mk%s))))", name, name))
 	} else {
@@ -312,7 +339,8 @@ func (vc *VC) structInfo(t types.Type) *structInfo {
 		return nil
 	}
 	s := vc.structSort(t, st)
-	return structInfos[s]
+	i, _ := structInfoGet(s)
+	return i
 }
 
 // zero value of a Go type
@@ -357,7 +385,7 @@ func (vc *VC) zeroOfSort(s Sort, t types.Type) T {
 		if et != nil {
 			ez = vc.zero(et)
 		} else {
-			ez = vc.zeroOfSort(sliceElems[s], nil)
+			ez = vc.zeroOfSort(sliceElemGet(s), nil)
 		}
 		arr := vc.constArray(ez)
 		if isArr {
@@ -365,7 +393,7 @@ func (vc *VC) zeroOfSort(s Sort, t types.Type) T {
 		}
 		return mk(s, "mk"+s, arr, IntLit(0), TTrue)
 	}
-	if info, ok := structInfos[s]; ok {
+	if info, ok := structInfoGet(s); ok {
 		var args []T
 		for i := range info.fields {
 			args = append(args, vc.zero(info.st.Field(i).Type()))
@@ -392,12 +420,12 @@ func (vc *VC) sliceSortOfType(t types.Type) (Sort, Sort) {
 	}
 	es := vc.sortOf(et)
 	ss := vc.sliceSort(es)
-	sliceElems[ss] = es
+	sliceElemSet(ss, es)
 	return ss, es
 }
 
 func slArr(s T) T {
-	return mk(ArraySort(SInt, sliceElems[s.sort]), s.sort+".arr", s)
+	return mk(ArraySort(SInt, sliceElemGet(s.sort)), s.sort+".arr", s)
 }
 func slLen(s T) T { return mk(SInt, s.sort+".len", s) }
 func slNil(s T) T { return mk(SBool, s.sort+".nil", s) }
